@@ -110,7 +110,12 @@ def decode(lit: str, lang: str, start: int, end: int, quote: int) -> Optional[Li
             # python, ts, go: exactly two hex digits
             if j + 1 >= end or not is_hex(ord(lit[j])) or not is_hex(ord(lit[j + 1])):
                 return None
-            out.append(hexval(ord(lit[j])) * 16 + hexval(ord(lit[j + 1])))
+            v = hexval(ord(lit[j])) * 16 + hexval(ord(lit[j + 1]))
+            if lang == "go" and v >= 128:
+                # in Go, \xhh is one *byte* of the UTF-8 encoded string, not a code point: a lone byte >= 0x80 is not
+                # the character U+00hh (the decoder does not piece multi-byte sequences together: none is emitted)
+                return None
+            out.append(v)
             i = j + 2
             continue
         if e == 117 or e == 85:  # \u \U
